@@ -9,7 +9,7 @@ From Coq Require Import List NArith ZArith Bool Arith Lia.
 Import ListNotations.
 Require Import Celma.Common.Res Celma.Common.ListX Celma.Common.Tactics
                Celma.ArgH.Key Celma.ArgH.Table Celma.ArgH.Lex Celma.ArgH.Handler Celma.ArgH.Spell
-               Celma.ArgH.SpellProofs Celma.ArgH.Groups Celma.ArgH.GenSim.
+               Celma.ArgH.SpellProofs Celma.ArgH.Groups Celma.ArgH.GenSim Celma.ArgH.HandlerSim.
 
 Definition cfg0 : cfg := {| args := []; gcons := []; abbr := true; fixed_notify := true |}.
 Definition st0 : hstate := {| arts := []; pend := []; gsts := []; last := None; inv := false |}.
@@ -66,10 +66,11 @@ Definition gsname (cs : list cfg) (i : gname) (ch : N) : Prop :=
   ch <> DASH /\ owns cs (fst i) (key_of_char ch) (snd i).
 Definition gtnone (cs : list cfg) (i : gname) : Prop := takes_none (member cs (fst i)) (snd i).
 Definition gtreq (cs : list cfg) (i : gname) : Prop := takes_required (member cs (fst i)) (snd i).
+Definition gtopt (cs : list cfg) (i : gname) : Prop := takes_optional (member cs (fst i)) (snd i).
 
 (** the legal spellings of a line of group uses *)
 Definition gspell_grp (cs : list cfg) : list (guse gname) -> list str -> Prop :=
-  gspell gname (glname cs) (gsname cs) (gtnone cs) (gtreq cs).
+  gspell gname (glname cs) (gsname cs) (gtnone cs) (gtreq cs) (gtopt cs).
 
 (** the uses of member [m], in line order *)
 Fixpoint proj (m : nat) (gus : list (guse gname)) : list use :=
@@ -146,6 +147,33 @@ Proof.
   intros He Hnx. induction cs as [|c cr IH]; intros m j Hf Ho Hn; [destruct Ho|].
   inversion Hf as [|? ? Hc Hfr]; subst. cbn [owns] in Ho. cbn [routed]. destruct m as [|m'].
   - intros s. rewrite He. apply value_step; assumption.
+  - destruct Ho as (Hl & Ho). split.
+    + intros s. rewrite He. apply process_unknown. exact Hl.
+    + apply IH; assumption.
+Qed.
+
+Lemma owns_routed_opt_none e k cur :
+  (forall c s, eval_single c s false e cur = process_arg c s false k cur) -> no_value_ahead cur ->
+  forall cs m j, all_fixed cs -> owns cs m k j -> takes_optional (member cs m) j ->
+  routed cs m e cur (UFlag j) cur.
+Proof.
+  intros He Hnv. induction cs as [|c cr IH]; intros m j Hf Ho Hn; [destruct Ho|].
+  inversion Hf as [|? ? Hc Hfr]; subst. cbn [owns] in Ho. cbn [routed]. destruct m as [|m'].
+  - intros s. rewrite He. apply HandlerSim.opt_none_step; assumption.
+  - destruct Ho as (Hl & Ho). split.
+    + intros s. rewrite He. apply process_unknown. exact Hl.
+    + apply IH; assumption.
+Qed.
+
+Lemma owns_routed_opt_val e k cur v it2 :
+  (forall c s, eval_single c s false e cur = process_arg c s false k cur) ->
+  next false cur = Ok (Some (EVal v, it2)) ->
+  forall cs m j, all_fixed cs -> owns cs m k j -> takes_optional (member cs m) j ->
+  routed cs m e cur (UVal j v) it2.
+Proof.
+  intros He Hnx. induction cs as [|c cr IH]; intros m j Hf Ho Hn; [destruct Ho|].
+  inversion Hf as [|? ? Hc Hfr]; subst. cbn [owns] in Ho. cbn [routed]. destruct m as [|m'].
+  - intros s. rewrite He. apply HandlerSim.opt_val_step; assumption.
   - destruct Ho as (Hl & Ho). split.
     + intros s. rewrite He. apply process_unknown. exact Hl.
     + apply IH; assumption.
@@ -253,7 +281,7 @@ Theorem group_words_spelled cs gus ws ss :
 Proof.
   intros Hf Hl Hsp.
   rewrite <- (gspell_eval gname (list hstate) (fun s => length s = length cs) (offer false cs) ERuntime
-                (gustep cs) (glname cs) (gsname cs) (gtnone cs) (gtreq cs)) with (ws := ws); auto.
+                (gustep cs) (glname cs) (gsname cs) (gtnone cs) (gtreq cs) (gtopt cs)) with (ws := ws); auto.
   - destruct (first ws); cbn [bind]; auto. apply iterate_group_giter.
   - intros i w (Hw & He & _). auto.
   - intros i ch (Hc & _). exact Hc.
@@ -277,6 +305,20 @@ Proof.
   - intros s [m j] ch cur v it2 Hs (Hc & Ho) Hn Hnx. unfold gustep. cbn [owner local fst snd] in *.
     apply offer_routed; auto.
     apply (owns_routed_val (EChar ch) (key_of_char ch) cur v it2); auto.
+  - intros s [m j] w cur Hs (Hw & He & k & Hk & Ho) Hn Hnv. unfold gustep. cbn [owner local fst snd] in *.
+    apply offer_routed; auto.
+    apply (owns_routed_opt_none (EStr w) k cur); auto.
+    intros c s0. unfold eval_single. rewrite Hk. reflexivity.
+  - intros s [m j] ch cur Hs (Hc & Ho) Hn Hnv. unfold gustep. cbn [owner local fst snd] in *.
+    apply offer_routed; auto.
+    apply (owns_routed_opt_none (EChar ch) (key_of_char ch) cur); auto.
+  - intros s [m j] w cur v it2 Hs (Hw & He & k & Hk & Ho) Hn Hnx. unfold gustep. cbn [owner local fst snd] in *.
+    apply offer_routed; auto.
+    apply (owns_routed_opt_val (EStr w) k cur v it2); auto.
+    intros c s0. unfold eval_single. rewrite Hk. reflexivity.
+  - intros s [m j] ch cur v it2 Hs (Hc & Ho) Hn Hnx. unfold gustep. cbn [owner local fst snd] in *.
+    apply offer_routed; auto.
+    apply (owns_routed_opt_val (EChar ch) (key_of_char ch) cur v it2); auto.
   - intros s v cur _. unfold gustep, gfree_step. rewrite (offer_val_cur v cur (bw [])). unfold with_it.
     destruct (offer false cs s (EVal v) (bw [])) as [[[a ss1] i1]|?|?]; cbn [bind]; auto. destruct a; reflexivity.
 Qed.
@@ -440,8 +482,16 @@ Proof.
   { induction fs as [|[i ch] fr IHf]; intros Hf; cbn [map]; constructor;
       inversion Hf as [|? ? (Hsn & _) Hr]; subst; eauto. }
   intros Hne. assert (H0 : 0 < length cs) by (destruct cs; [congruence|cbn; lia]).
-  unfold gspell_grp. induction 1; try (apply Forall_app; split); try constructor; cbn [owner]; eauto.
-  apply Forall_forall. intros u Hu. apply in_map_iff in Hu. destruct Hu as (v & <- & _). exact H0.
+  unfold gspell_grp. induction 1.
+  all: repeat match goal with
+       | |- Forall _ (_ ++ _) => apply Forall_app; split
+       | |- Forall _ (repeat _ _) => apply Forall_forall; intros ? Hrep; apply repeat_spec in Hrep; subst
+       | |- Forall _ (map (fun p => GFlag (fst p)) _) => apply Hfs; assumption
+       | |- Forall _ (map GFree _) =>
+           apply Forall_forall; intros ? Hu; apply in_map_iff in Hu; destruct Hu as (? & <- & _)
+       | |- Forall _ (_ :: _) => constructor
+       | |- Forall _ [] => constructor
+       end; cbn [owner]; eauto.
 Qed.
 
 Lemma init_states_length cs : forall initss, length initss = length cs ->
